@@ -24,7 +24,8 @@ TRUSTED_BASE = [
     "model/Sections.v + model/Toposort.v are hand-written; tied to core/config.py, config/mapping.py, plugins.py "
     "and site-packages/toposort.py by the correspondence run; the dependency computation of load_section_plugins "
     "(core/config.py) additionally by translation (py2coq/units.py:gen_sections, trusted, fail-closed: exact four-statement "
-    "skeleton; gen/Gen_sections.v regenerated on every run, kit/SectionsIR.v, props/C14_tie.v); load_configuration, "
+    "skeleton) and the phases of load_configuration (config/mapping.py: order of logging / validation / digests, the tests on a "
+    "missing section and on a digest's result); gen/Gen_sections.v regenerated on every run, kit/SectionsIR.v, props/C14_tie.v; "
     "SectionPlugin.load, constraints and toposort by correspondence only",
     "python dict/set semantics (unique keys, set difference) as transcribed in the model",
 ]
